@@ -7,7 +7,7 @@ from pathlib2 import Guard, established, success_sites, dominated, reachable_fns
 import ex
 
 LEVEL = "other"
-TECHNIQUE = ("PATH on ed25519_dalek::batch::verify_batch: must-pass-through of the length / canonical-S / R-decoding / identity checks before Ok; "
+TECHNIQUE = ("BATCHEQ: abstract interpretation of verify_batch on symbolic batches (scalar polynomials, polynomial combinations of points, transcript / RNG tokens); fallback PATH on ed25519_dalek::batch::verify_batch: must-pass-through of the length / canonical-S / R-decoding / identity checks before Ok; "
              "happens-before (CFG reachability) of every transcript append relative to build_rng; ORDER of the per-entry hash; structural matching "
              "of the scalar and point iterator pipelines (PAIR) including the bodies of the closures they use; NOCALL of any entropy source")
 
@@ -84,6 +84,31 @@ def iter_src(e):
     return ex.strip(a[0])
 
 
+class Collector:
+    """records the verdicts of the syntactic rules so that they can be merged with the semantic ones"""
+
+    def __init__(self):
+        self.items = []
+
+    def ok(self, rule, inst, detail=""):
+        self.items.append(("ok", rule, inst, detail, ()))
+
+    def viol(self, rule, inst, msg, *loc):
+        self.items.append(("viol", rule, inst, msg, loc))
+
+    def floor(self, *a):
+        self.items.append(("floor", a))
+
+    def anchor_missing(self, *a):
+        self.items.append(("anchor", a))
+
+
+# syntactic rule -> the semantic clause (BATCHEQ) that decides the same thing independently of the code's shape
+CLAUSE = {"C13.length_check": "lengths", "C13.canonical_S": "reject_S", "C13.R_decodes": "reject_R", "C13.identity": "identity",
+          "C13.transcript.before_rng": "binding", "C13.transcript.no_lazy_append": "binding", "C13.transcript.hrams": "binding",
+          "C13.transcript.s_halves": "binding", "C13.hram_order": "equation", "C13.pairing": "equation", "C13.equation": "equation", "C13.transcript": "binding"}
+
+
 def check_cfg(F, R, cfg):
     I = lambda s: "%s:%s" % (cfg, s)
     try:
@@ -91,6 +116,117 @@ def check_cfg(F, R, cfg):
     except LookupError:
         R.anchor_missing("C13.anchor", I("verify_batch"))
         return
+    sem = semantic(F, vb, cfg)
+    C = Collector()
+    syntactic(F, C, cfg, vb)
+    # merge: a clause decided by the semantic engine overrides the shape-dependent rule; an inconclusive semantic run (a value left
+    # the abstract domain) falls back to the syntactic verdict, which fails closed
+    for it in C.items:
+        if it[0] == "floor":
+            R.floor(*it[1])
+            continue
+        if it[0] == "anchor":
+            R.anchor_missing(*it[1])
+            continue
+        kind, rule, inst, msg, loc = it
+        st = sem.get(CLAUSE.get(rule), ("unknown", ""))[0]
+        if kind == "ok":
+            R.ok(rule, inst, msg)
+        elif st == "ok":
+            R.ok(rule, inst, "syntactic form not recognised (%s); the clause is decided by C13.sem.%s" % (msg[:120], CLAUSE[rule]))
+        else:
+            R.viol(rule, inst, msg + ("" if st == "viol" else " [semantic analysis inconclusive: %s]" % sem.get(CLAUSE.get(rule), ("", "no semantic counterpart"))[1][:160]), *loc)
+    for clause in ("equation", "binding", "lengths", "reject_S", "reject_R", "identity", "accepts"):
+        st, msg = sem.get(clause, ("unknown", "not evaluated"))
+        if st == "ok":
+            R.ok("C13.sem." + clause, I("verify_batch"), msg)
+        elif st == "viol":
+            R.viol("C13.sem." + clause, I("verify_batch"), msg, view(F, vb).loc())
+        else:
+            R.note("C13.sem.%s inconclusive in %s (%s): the syntactic rules decide" % (clause, cfg, msg[:200]))
+    R.floor("C13.sem", I("clauses decided in the BATCHEQ domain"), sum(1 for c in sem.values() if c[0] == "ok"), 0)
+
+
+def semantic(F, vb, cfg):
+    """BATCHEQ (lib/eng_batcheq.py): verify_batch evaluated on symbolic batches of 0, 1, 2, 3 and 5 entries."""
+    import eng_batcheq as BQ
+    out = {}
+    a = F.adts.get("ed25519_dalek::verifying::VerifyingKey")
+    if not a:
+        return {c: ("unknown", "VerifyingKey not found") for c in ("equation", "binding", "lengths", "reject_S", "reject_R", "identity", "accepts")}
+    kf = [x["name"] for x in a["variants"][0]["fields"]]
+
+    def go(n, **kw):
+        try:
+            return BQ.run(F, vb, n, kf, **kw)
+        except Exception as e:
+            return None, e
+    # equation and binding
+    eq, bd, acc = [], [], []
+    for n in (0, 1, 2, 3, 5):
+        ret, ip = go(n)
+        if ret is None and isinstance(ip, Exception):
+            eq.append(("unknown", "analysis failed for n=%d: %r" % (n, ip)))
+            continue
+        tests = ip.models.identity_tests
+        if len(tests) == 1 and tests[0] is not None and tests[0][0] == "pl":
+            ok, why = BQ.expected(n, tests)
+            eq.append(("ok" if ok else "viol", ("n=%d: " % n) + why))
+        elif len(tests) > 1 and all(t is not None and t[0] == "pl" for t in tests):
+            eq.append(("viol", "n=%d: %d combinations are tested against the identity" % (n, len(tests))))
+        else:
+            eq.append(("unknown", "n=%d: %s" % (n, "; ".join(ip.models.notes[-2:]) or "the tested value is outside the domain")))
+        if n:
+            if eq[-1][0] == "unknown" and len(ip.models.draws) < n:
+                bd.append(("unknown", "n=%d: the random draws could not be followed" % n))
+            else:
+                ok, why = BQ.binding(n, ip)
+                bd.append(("ok" if ok else "viol", ("n=%d: " % n) + why))
+        v = BQ.variants(ret)
+        acc.append(("unknown", "n=%d: return value unknown" % n) if v is None else (("ok", "n=%d: Ok is reachable" % n) if 0 in v else ("viol", "n=%d: verify_batch can never return Ok" % n)))
+
+    def fold(xs, okmsg):
+        for st in ("viol", "unknown"):
+            for x in xs:
+                if x[0] == st:
+                    return x
+        return ("ok", okmsg)
+    out["equation"] = fold(eq, "for batches of 0, 1, 2, 3, 5 symbolic entries the value tested against the identity is "
+                               "sum z_i R_i + sum z_i H(R_i, A_i, m_i) A_i - (sum z_i s_i) B with R_i = decompress(sig_i[0..32]), s_i = scalar(sig_i[32..64]), distinct z_i")
+    out["binding"] = fold(bd, "every z_i is 16 bytes drawn from the RNG of a transcript that has absorbed every H(R_i, A_i, m_i) and every S half (n = 1, 2, 3, 5)")
+    out["accepts"] = fold(acc, "Ok is reachable for every batch size analysed")
+    # scenarios: the outcome must be Err and nothing else
+    conclusive = out["equation"][0] != "unknown"
+
+    def only_err(name, okmsg, runs, applicable=lambda ip: True):
+        res = []
+        for n, kw in runs:
+            ret, ip = go(n, **kw)
+            v = BQ.variants(ret) if not isinstance(ip, Exception) else None
+            if v is None:
+                res.append(("unknown", "%s: return value unknown" % (kw,)))
+            elif not applicable(ip):
+                res.append(("unknown", "%s: the forced failure was never exercised" % (kw,)))
+            elif v == {1}:
+                res.append(("ok", ""))
+            elif ip.models.inconclusive or ip.models.msm_calls == 0:
+                res.append(("unknown", "%s: %s" % (kw, "; ".join(ip.models.notes[-1:]) or "no multiscalar multiplication reached")))
+            else:
+                res.append(("viol", "with %s verify_batch can return Ok" % (", ".join("%s=%s" % kv for kv in kw.items()),)))
+        out[name] = fold(res, okmsg)
+    only_err("lengths", "every combination of mismatched slice lengths tried (1,2,2) (2,1,2) (2,2,1) (0,1,1) (3,3,2) returns Err only",
+             [(2, dict(lens=l)) for l in ((1, 2, 2), (2, 1, 2), (2, 2, 1), (0, 1, 1), (3, 3, 2))])
+    only_err("reject_S", "when the canonical decoding of any one S fails (entry 0, 1 or 2 of 3) the result is Err only",
+             [(3, dict(fail_sc=[j])) for j in range(3)], lambda ip: ip.models.sc_decodes > 0 and any("from_canonical_bytes" in x for x in ip.models.notes))
+    only_err("reject_R", "when any one R fails to decompress (entry 0, 1 or 2 of 3) the result is Err only",
+             [(3, dict(fail_dec=[j])) for j in range(3)], lambda ip: ip.models.r_decodes > 0)
+    only_err("identity", "when the tested combination is not the identity the result is Err only (n = 0, 2)",
+             [(0, dict(force_identity=0)), (2, dict(force_identity=0))], lambda ip: len(ip.models.identity_tests) > 0)
+    return out
+
+
+def syntactic(F, R, cfg, vb):
+    I = lambda s: "%s:%s" % (cfg, s)
     fv = view(F, vb)
     IS = "ed25519_dalek::signature::InternalSignature"
     VK = "ed25519_dalek::verifying::VerifyingKey"
@@ -253,7 +389,7 @@ def check_cfg(F, R, cfg):
             if re.search(r"getrandom|OsRng|thread_rng|rand::rngs|std::time|SystemTime|RandomState", cname(t)):
                 bad.append(cname(t)[:80])
     (R.viol if bad else R.ok)("C13.rng.no_entropy", I("batch module"), ("entropy source called: %s" % bad) if bad else "no OS/thread RNG, clock or hasher-seed call in %d batch functions" % len(batch_fns))
-    R.floor("C13.rng.no_entropy", I("batch functions scanned"), len(batch_fns), 8)
+    R.floor("C13.rng.no_entropy", I("batch functions scanned (closures not counted)"), len([f for f in batch_fns if f["kind"] != "Closure"]), 6)
 
     # ---------------------------------------------------------------- 6. PAIR: scalar chain vs point chain
     sc = expr_of(fv, om_t["args"][0], D)
